@@ -12,6 +12,10 @@ CORE_T = ["-n", "1500", "-ops", "90", "-thorough"]
 def core_stream(extra_q=None, extra_t=None):
     return dict(name="core", quick=CORE_Q + (extra_q or []), thorough=CORE_T + (extra_t or []), shards_quick=4, shards_thorough=14)
 
+# the real entry.OrderedMap against its representation-level model and against the list of values the theorems use
+OMAP_STREAM = dict(name="omap", quick=["-n", "400"], thorough=["-n", "6000", "-thorough"], shards_quick=1, shards_thorough=4)
+OMAP_PROPS = ["C01", "C02", "C03", "C05", "C16"]
+
 CONC_FOR_CORE = dict(name="conc", quick=["-n", "250"], thorough=["-n", "3000", "-thorough"], shards_quick=4, shards_thorough=14)
 
 PROPS = {}
@@ -80,7 +84,10 @@ _core_prop("C15", "Iteration returns the requested causal range, newest first, a
     r"iter/.*",
     "Lean 4: relaxed worklist invariant for traversal from arbitrary roots (traverse_general, end hash, amount) and the range theorems of Iterator; traversal-free specification iterSpec evaluated on every implementation call",
     "Kernel-checked on the model of Iterator: success always closes the channel (also amount 0 and amounts beyond the range), unknown upper bounds are errors, and for ANY upper bounds (also causally related ones) the emission is duplicate-free, newest first and exactly the causal past of the bounds (iter_full_spec via traverse_general); with a lower bound inside the range the output is the emission down to it (inclusive/exclusive), with an amount its last `amount` elements, without a lower bound a prefix of at most `amount` (exactly `amount` for unrelated bounds). The traversal-free specification iterSpec is additionally evaluated on every implementation call.",
-    CORE_NOTE)
+    CORE_NOTE, extra_streams=[CONC_FOR_CORE])
+# "always ends" under concurrent writers: the controlled schedules of the conc stream run Iterator (default and
+# bounded) against appends and merges; an Iterator goroutine the watchdog waits for is the failing schedule
+PROPS["C15"]["diff_fields_by_stream"] = {"core": PROPS["C15"]["diff_fields"], "conc": r"read\.iter.*"}
 _core_prop("C16", "A size-bounded merge keeps exactly the newest entries of the full merge",
     r"joinN/.*",
     "Lean 4: theorems on the transcription of Join with a size bound",
@@ -237,5 +244,12 @@ PROPS["C17"] = dict(
     rule="crash stream: 2-4 replicas (few writers, so replicas often share an identity and identical blocks arise), some read-only (denying) replicas, 12-32 ops of append (small payload alphabet)/join/publish; every write prefix checked; up to 14 returned identifiers x 2 store snapshots loaded; distinct = distinct operation shapes; non-trivial = at least one successful append",
 )
 
+for _pid in OMAP_PROPS:
+    PROPS[_pid]["streams"] = PROPS[_pid]["streams"] + [OMAP_STREAM]
+    _by = dict(PROPS[_pid].get("diff_fields_by_stream") or {"core": PROPS[_pid]["diff_fields"]})
+    _by["omap"] = r".*"
+    PROPS[_pid]["diff_fields_by_stream"] = _by
+    PROPS_EXTRA[_pid] = PROPS_EXTRA.get(_pid, []) + ["Props.OMapRefine"]
+    PROPS[_pid]["rule"] = PROPS[_pid]["rule"] + "; omap stream: random sequences of Set/Get/UnsafeGet/At/Reverse/Copy/Merge/NewOrderedMapFromEntries on up to 7 real OrderedMaps (hash keys with twin objects, or free keys with replaced values; nil and undefined elements), every map observed after every operation"
 for _pid, _t in PROPS_EXTRA.items():
     PROPS[_pid]["extra_targets"] = PROPS[_pid].get("extra_targets", []) + _t
